@@ -37,13 +37,13 @@ type Msg struct {
 	// request line
 	Method, Target string
 	// status line
-	Status int
-	Reason string
-	Proto  string
+	Status  int
+	Reason  string
+	Proto   string
 	Headers []Header
 	// Framing: "none", "cl", "chunked", "eof"
 	Framing string
-	CL      int64 // declared Content-Length (-1 none)
+	CL      int64  // declared Content-Length (-1 none)
 	Body    []byte // de-framed body bytes received so far
 	HeadLen int    // bytes of start line + headers + blank line (0 if head incomplete)
 	Len     int    // bytes consumed by the message (if complete)
